@@ -86,6 +86,21 @@ Theorem C15_static_reads_stable :
     static_reads g h None d n = repeat (link_deliver g h d) n.
 Proof. intros A. exact (@static_reads_stable A). Qed.
 
+(** Flat data: a source component may push a 1-D array of data_size entries "in the grid's order";
+    tools.prepare reshapes it to [1 :: data_shape g] in order [g_c g] ([flat_arr]).  Over a link between
+    compatible grids, the delivered element of [h] with canonical index [c] is entry
+    [flat order data_shape (layout_idx g c)] of the flat array, i.e. (C14_index_coord) the entry whose
+    position in [data_points g] is that physical location, for every order and axes_reversed. *)
+Theorem C15_link_flat :
+  forall (A : Type) (d0 : A) (g h : grid) (vals : list A),
+    wf_axes g -> wf_axes h -> 1 <= gdim g -> compatible g h = true ->
+    exists out,
+      link_deliver g h (flat_arr d0 g vals) = LOk out /\
+      a_shape out = 1 :: data_shape h /\
+      forall c, inb (canon_shape h) c ->
+        a_get out (0 :: layout_idx h c) = nth (flat (g_c g) (data_shape g) (layout_idx g c)) vals d0.
+Proof. intros A. exact (@link_flat A). Qed.
+
 (** Living grid objects: for every list of grids and every script of comparisons
     (compatible_with, ==, get_transform_to between any two objects, the same partner repeatedly),
     data_location changes and copies, each answer is the pure function of the two objects' CURRENT
@@ -153,6 +168,14 @@ Example C15_compat_current_nonvacuous :
   [GB true; GCopied; GSetR true; GB false; GB false; GSetR true; GB true; GT TErr; GB true].
 Proof. vm_compute. reflexivity. Qed.
 
+Example C15_link_flat_nonvacuous :
+  match link_deliver ex_h ex_g (flat_arr 0%Z ex_h [1; 2; 3; 4; 5; 6; 7; 8; 9; 10; 11; 12]%Z) with
+  | LOk out => list_of_arr out = [10; 7; 4; 1; 11; 8; 5; 2; 12; 9; 6; 3]%Z
+  | _ => False
+  end.
+Proof. vm_compute. reflexivity. Qed.
+
+Print Assumptions C15_link_flat.
 Print Assumptions C15_compat_current.
 Print Assumptions C15_static_reads_stable.
 Print Assumptions C15_link_transform.
